@@ -104,7 +104,8 @@ Definition prod_guard (c : cfg) (cum : N) (f : flush) : bool :=
   | None => false
   end.
 
-(* should_continue = max_bytes is not None and resp_buf.tell() < max_bytes *)
+(* should_continue = max_bytes is not None and write_sink.tell() < max_bytes   (uncompressed body position;
+   resp_buf.tell() before the C11 fix -- the same number when no response codec is negotiated) *)
 Definition should_continue (c : cfg) (pos : N) : bool :=
   match wire_cap c with Some m => pos <? m | None => false end.
 
